@@ -1039,7 +1039,9 @@ func ruleERR4(w *World) []Ob {
 		// the callback spilled into a cell because a range-over-func body (a synthetic closure) captures it
 		var cbCells []ssa.Value
 		for _, fv := range fn.FreeVars {
-			if pt, ok := fv.Type().(*types.Pointer); ok && isWalkCallback(pt.Elem()) {
+			// (ordinary function literals that capture the callback are not examined here: their error travels
+			// through a captured variable and a bool result, which PAIR-7 and ERR-1 look at)
+			if pt, ok := fv.Type().(*types.Pointer); ok && isWalkCallback(pt.Elem()) && fn.Synthetic == "range-over-func yield" {
 				cbCells = append(cbCells, fv)
 			}
 		}
